@@ -1,10 +1,11 @@
 """Per-property configuration of the checks (text used in MANIFEST/evidence, knobs)."""
+from props import P
 
-PROPS = {}
 
 
-def P(pid, **kw):
-    PROPS[pid] = kw
+
+
+
 
 
 P("C42",
